@@ -210,7 +210,14 @@ class Permuted(SymIterable):
 
     def item(self, t):
         from pyvc.builtins_shim import item_of
-        src = item_of(self.items, SNum(self.pi(to_term(t))))
+        tt = to_term(t)
+        nt = dim_term(self.n)
+        # instance of the bijection axioms at the position that is being looked at (ground fact for the
+        # quantifier-free feasibility relaxation)
+        self.ctx.assume(z3.Implies(z3.And(tt >= 0, tt < nt),
+                                   z3.And(self.pi(tt) >= 0, self.pi(tt) < nt, self.pinv(self.pi(tt)) == tt)),
+                        "contract:iter_unordered instance")
+        src = item_of(self.items, SNum(self.pi(tt)))
         if self.unpack:
             return self.func(*src, *self.func_args, **self.func_kwargs)
         return self.func(src, *self.func_args, **self.func_kwargs)
